@@ -17,18 +17,29 @@ use crate::c23::{envelope, exchange, http_schema, request_bytes, Resp, Server};
 use crate::Ctx;
 
 const MAX_BODY: usize = 2048;
+/// body limit of the servers used by the echoed-input family
+fn echo_max_body(quick: bool) -> usize {
+  if quick {
+    8192
+  } else {
+    32768
+  }
+}
 const TIMEOUT: Duration = Duration::from_secs(25);
 
 pub const SIG_UNKNOWN_ROUTE: &str = "C24-unknown-route-empty-body";
 pub const SIG_METHOD: &str = "C24-method-not-allowed-empty-body";
 pub const SIG_PANIC_DROP: &str = "C24-panic-in-handler-drops-connection";
 pub const SIG_PANIC_500: &str = "C24-non-ascii-cursor-panics-500";
+pub const SIG_TOP_PIPELINE: &str = "C24-top-level-pipeline-agg-panics-500";
 
 #[derive(Clone, Copy, Debug, PartialEq, Eq, Hash, PartialOrd, Ord)]
 enum St {
   NoIndex,
   Index,
   Queued,
+  /// index with the richer echo-family schema (text, keyword, numeric, nested) and 2 committed docs
+  Echo,
 }
 
 impl St {
@@ -37,12 +48,14 @@ impl St {
       St::NoIndex => "no_index",
       St::Index => "index",
       St::Queued => "index+queued",
+      St::Echo => "echo_index",
     }
   }
   fn from_name(s: &str) -> St {
     match s {
       "no_index" => St::NoIndex,
       "index" => St::Index,
+      "echo_index" => St::Echo,
       _ => St::Queued,
     }
   }
@@ -116,6 +129,8 @@ enum Class {
   NonUtf8,
   Oversize,
   ErrSearch,
+  /// echoed-input family: a long / multi-byte name placed where the server quotes it back
+  Echo,
 }
 
 #[derive(Clone, Debug)]
@@ -127,6 +142,10 @@ struct Req {
   class: Class,
   /// human description of the body
   desc: String,
+  /// --max-body-bytes of the server this request is sent to
+  max_body: usize,
+  /// echo family: (location index, the name that was planted)
+  echo: Option<(usize, String)>,
 }
 
 impl Req {
@@ -137,7 +156,7 @@ impl Req {
     format!("{} {} content-type={} body={}", self.method, self.path, self.ctype.unwrap_or("<none>"), self.desc)
   }
   fn to_json(&self, st: St) -> Value {
-    json!({"engine": "httpmc-robust", "state": st.name(), "server_flags": ["--max-body-bytes", MAX_BODY.to_string()],
+    json!({"engine": "httpmc-robust", "state": st.name(), "server_flags": ["--max-body-bytes", self.max_body.to_string()], "max_body": self.max_body,
       "method": self.method, "path": self.path, "content_type": self.ctype, "body_class": format!("{:?}", self.class), "body_desc": self.desc,
       "body_hex": self.body.as_ref().map(|b| b.iter().map(|x| format!("{x:02x}")).collect::<String>())})
   }
@@ -148,11 +167,11 @@ impl Req {
     let ctype = v["content_type"].as_str().and_then(|c| CTYPES.iter().flatten().copied().find(|x| *x == c));
     let body = v["body_hex"].as_str().map(|h| (0..h.len() / 2).map(|i| u8::from_str_radix(&h[2 * i..2 * i + 2], 16).unwrap_or(0)).collect::<Vec<u8>>());
     let cls = v["body_class"].as_str().unwrap_or("");
-    let class = [Class::NoBody, Class::Empty, Class::Brace, Class::Valid, Class::Mutant, Class::NonUtf8, Class::Oversize, Class::ErrSearch]
+    let class = [Class::NoBody, Class::Empty, Class::Brace, Class::Valid, Class::Mutant, Class::NonUtf8, Class::Oversize, Class::ErrSearch, Class::Echo]
       .into_iter()
       .find(|c| format!("{c:?}") == cls)
       .unwrap_or(Class::Mutant);
-    (st, Req { method, path: v["path"].as_str().unwrap_or("/").to_string(), ctype, body, class, desc: v["body_desc"].as_str().unwrap_or("").to_string() })
+    (st, Req { max_body: v["max_body"].as_u64().map(|m| m as usize).unwrap_or(MAX_BODY), echo: None, method, path: v["path"].as_str().unwrap_or("/").to_string(), ctype, body, class, desc: v["body_desc"].as_str().unwrap_or("").to_string() })
   }
 }
 
@@ -316,7 +335,7 @@ fn build_space(quick: bool) -> Space {
           }
         }
         for (b, class, desc) in bodies {
-          push(Req { method, path: path.clone(), ctype: ct, body: b, class, desc }, if exact { "routing:known-path" } else { "routing:unknown-path" }, &mut reqs);
+          push(Req { max_body: MAX_BODY, echo: None, method, path: path.clone(), ctype: ct, body: b, class, desc }, if exact { "routing:known-path" } else { "routing:unknown-path" }, &mut reqs);
         }
       }
     }
@@ -330,9 +349,9 @@ fn build_space(quick: bool) -> Space {
       _ => CTYPES.to_vec(),
     };
     for &ct in &ctypes {
-      push(Req { method: r.method, path: r.path.into(), ctype: ct, body: Some(vec![0xff, 0xfe, b'{', 0xc3]), class: Class::NonUtf8, desc: "non-UTF-8 bytes ff fe 7b c3".into() }, "body:non-utf8", &mut reqs);
+      push(Req { max_body: MAX_BODY, echo: None, method: r.method, path: r.path.into(), ctype: ct, body: Some(vec![0xff, 0xfe, b'{', 0xc3]), class: Class::NonUtf8, desc: "non-UTF-8 bytes ff fe 7b c3".into() }, "body:non-utf8", &mut reqs);
       push(
-        Req { method: r.method, path: r.path.into(), ctype: ct, body: Some(oversize_body()), class: Class::Oversize, desc: format!("{} bytes (max_body_bytes + 1)", MAX_BODY + 1) },
+        Req { max_body: MAX_BODY, echo: None, method: r.method, path: r.path.into(), ctype: ct, body: Some(oversize_body()), class: Class::Oversize, desc: format!("{} bytes (max_body_bytes + 1)", MAX_BODY + 1) },
         "body:oversize",
         &mut reqs,
       );
@@ -341,18 +360,334 @@ fn build_space(quick: bool) -> Space {
           if quick {
             break;
           }
-          push(Req { method: r.method, path: r.path.into(), ctype: ct, body: Some(vb.as_bytes().to_vec()), class: Class::Valid, desc: format!("second valid {} body {}", r.path, vb.replace('\n', "\\n")) }, "body:second-valid", &mut reqs);
+          push(Req { max_body: MAX_BODY, echo: None, method: r.method, path: r.path.into(), ctype: ct, body: Some(vb.as_bytes().to_vec()), class: Class::Valid, desc: format!("second valid {} body {}", r.path, vb.replace('\n', "\\n")) }, "body:second-valid", &mut reqs);
         }
         for (m, d) in mutants(vb.as_bytes(), repl) {
-          push(Req { method: r.method, path: r.path.into(), ctype: ct, body: Some(m), class: Class::Mutant, desc: format!("{d} [valid = {}]", vb.replace('\n', "\\n")) }, "body:single-edit-neighbour", &mut reqs);
+          push(Req { max_body: MAX_BODY, echo: None, method: r.method, path: r.path.into(), ctype: ct, body: Some(m), class: Class::Mutant, desc: format!("{d} [valid = {}]", vb.replace('\n', "\\n")) }, "body:single-edit-neighbour", &mut reqs);
         }
       }
     }
   }
   for (d, v) in err_searches() {
-    push(Req { method: "POST", path: "/search".into(), ctype: Some(JSON), body: Some(v.to_string().into_bytes()), class: Class::ErrSearch, desc: format!("{d}: {v}") }, "body:error-search", &mut reqs);
+    push(Req { max_body: MAX_BODY, echo: None, method: "POST", path: "/search".into(), ctype: Some(JSON), body: Some(v.to_string().into_bytes()), class: Class::ErrSearch, desc: format!("{d}: {v}") }, "body:error-search", &mut reqs);
   }
   Space { reqs, counts }
+}
+
+
+// ---------------------------------------------------------------------------------------------
+// echoed-input family: every request location whose content the server may quote back in an
+// error reason (or in a 2xx body) gets names built from 1-, 2-, 3- and 4-byte characters, in every
+// byte phase, with total byte lengths swept around the powers of two and up to the body limit.
+
+const ECHO_SCHEMA: &str = r#"{"doc_id_field":"_id","text_fields":[{"name":"body","analyzer":"default","stored":true,"indexed":true}],"keyword_fields":[{"name":"tag","stored":true,"indexed":true,"fast":true}],"numeric_fields":[{"name":"n","i64":true,"fast":true,"stored":true}],"nested_fields":[{"name":"c","fields":[{"type":"keyword","name":"t","stored":true,"indexed":true,"fast":true}]}]}"#;
+const ECHO_DOCS: &str = "{\"_id\":\"k\",\"body\":\"rust search\",\"tag\":\"x\",\"n\":1,\"c\":[{\"t\":\"u\"}]}\n{\"_id\":\"m\",\"body\":\"more rust\",\"tag\":\"y\",\"n\":2,\"c\":[{\"t\":\"v\"}]}\n";
+/// placeholder replaced by the name (names contain no character that needs JSON escaping)
+const PH: &str = "@N@";
+const ECHO_CHARS: [&str; 4] = ["a", "é", "日", "😀"];
+
+struct EchoLoc {
+  name: String,
+  st: St,
+  path: &'static str,
+  ctype: &'static str,
+  template: String,
+}
+
+fn echo_locations() -> Vec<EchoLoc> {
+  let mut out: Vec<EchoLoc> = Vec::new();
+  // ---- documents (/add line, /bulk element)
+  let docs: [(&str, &str); 7] = [
+    ("unknown-field-name", r#"{"_id":"k","@N@":"x"}"#),
+    ("id-value", r#"{"_id":"@N@","body":"x"}"#),
+    ("text-value", r#"{"_id":"k","body":"@N@"}"#),
+    ("keyword-value", r#"{"_id":"k","tag":"@N@"}"#),
+    ("numeric-field-given-string", r#"{"_id":"k","n":"@N@"}"#),
+    ("nested-unknown-property", r#"{"_id":"k","c":[{"@N@":"x"}]}"#),
+    ("nested-value", r#"{"_id":"k","c":[{"t":"@N@"}]}"#),
+  ];
+  for (n, d) in docs {
+    out.push(EchoLoc { name: format!("add.doc.{n}"), st: St::Echo, path: "/add", ctype: NDJSON, template: format!("{d}\n") });
+    out.push(EchoLoc { name: format!("bulk.doc.{n}"), st: St::Echo, path: "/bulk", ctype: JSON, template: format!("{{\"docs\":[{d}]}}") });
+  }
+  for (n, t) in [("add.raw-line", "@N@\n"), ("add.garbage-after-document", "{\"_id\":\"k\",\"body\":\"x\"}@N@\n"), ("add.string-line", "\"@N@\"\n")] {
+    out.push(EchoLoc { name: n.into(), st: St::Echo, path: "/add", ctype: NDJSON, template: t.into() });
+  }
+  for (n, t) in [
+    ("bulk.unknown-top-level-key", r#"{"docs":[{"_id":"k","body":"x"}],"@N@":1}"#),
+    ("bulk.docs-element-is-string", r#"{"docs":["@N@"]}"#),
+    ("bulk.docs-is-string", r#"{"docs":"@N@"}"#),
+  ] {
+    out.push(EchoLoc { name: n.into(), st: St::Echo, path: "/bulk", ctype: JSON, template: t.into() });
+  }
+  for (n, t) in [
+    ("delete.id", r#"{"ids":["@N@"]}"#),
+    ("delete.id-with-leading-space", r#"{"ids":["k"," @N@"]}"#),
+    ("delete.unknown-top-level-key", r#"{"@N@":["k"]}"#),
+    ("delete.ids-is-string", r#"{"ids":"@N@"}"#),
+  ] {
+    out.push(EchoLoc { name: n.into(), st: St::Echo, path: "/delete", ctype: JSON, template: t.into() });
+  }
+  // ---- /init (server without an index)
+  let tf = |name: &str, extra: &str| format!(r#"{{"name":"{name}","stored":true,"indexed":true{}}}"#, if extra.is_empty() { r#","analyzer":"default""# } else { extra });
+  let schema = |id: &str, analyzers: &str, text: &str, kw: &str, num: &str, nested: &str| {
+    format!(r#"{{"doc_id_field":"{id}","analyzers":[{analyzers}],"text_fields":[{text}],"keyword_fields":[{kw}],"numeric_fields":[{num}],"nested_fields":[{nested}]}}"#)
+  };
+  let body_tf = tf("body", r#","analyzer":"default""#);
+  let inits: Vec<(&str, String)> = vec![
+    ("text-field-name", schema("_id", "", &tf(PH, ""), "", "", "")),
+    ("text-field-analyzer", schema("_id", "", &tf("body", r#","analyzer":"@N@""#), "", "", "")),
+    ("text-field-tokenizer", schema("_id", "", &tf("body", r#","tokenizer":"@N@""#), "", "", "")),
+    ("text-field-search-analyzer", schema("_id", "", &tf("body", r#","analyzer":"default","search_analyzer":"@N@""#), "", "", "")),
+    ("doc-id-field", schema(PH, "", &body_tf, "", "", "")),
+    ("doc-id-field-overlapping-a-field", schema(PH, "", &tf(PH, ""), "", "", "")),
+    ("duplicate-text-field", schema("_id", "", &format!("{},{}", tf(PH, ""), tf(PH, "")), "", "", "")),
+    ("keyword-field-name", schema("_id", "", &body_tf, r#"{"name":"@N@","stored":true,"indexed":true,"fast":true}"#, "", "")),
+    ("keyword-field-same-as-text-field", schema("_id", "", &tf(PH, ""), r#"{"name":"@N@","stored":true,"indexed":true,"fast":true}"#, "", "")),
+    ("numeric-field-name", schema("_id", "", &body_tf, "", r#"{"name":"@N@","i64":true,"fast":true,"stored":true}"#, "")),
+    ("nested-field-name", schema("_id", "", &body_tf, "", "", r#"{"name":"@N@","fields":[{"type":"keyword","name":"t","stored":true,"indexed":true,"fast":true}]}"#)),
+    ("nested-property-name", schema("_id", "", &body_tf, "", "", r#"{"name":"c","fields":[{"type":"keyword","name":"@N@","stored":true,"indexed":true,"fast":true}]}"#)),
+    ("nested-text-property-analyzer", schema("_id", "", &body_tf, "", "", r#"{"name":"c","fields":[{"type":"text","name":"t","stored":true,"indexed":true,"analyzer":"@N@"}]}"#)),
+    ("analyzer-name", schema("_id", r#"{"name":"@N@","tokenizer":"default"}"#, &tf("body", r#","analyzer":"@N@""#), "", "", "")),
+    ("analyzer-tokenizer", schema("_id", r#"{"name":"mine","tokenizer":"@N@"}"#, &tf("body", r#","analyzer":"mine""#), "", "", "")),
+    ("analyzer-stopwords-name", schema("_id", r#"{"name":"mine","tokenizer":"default","filters":[{"stopwords":"@N@"}]}"#, &tf("body", r#","analyzer":"mine""#), "", "", "")),
+    ("unknown-top-level-key", format!(r#"{{"text_fields":[{body_tf}],"keyword_fields":[],"numeric_fields":[],"@N@":1}}"#)),
+  ];
+  for (n, t) in inits {
+    out.push(EchoLoc { name: format!("init.{n}"), st: St::NoIndex, path: "/init", ctype: JSON, template: t });
+  }
+  // ---- /search
+  let search = |query: &str, extra: &str| format!(r#"{{"query":{query},"limit":5,"return_stored":false{}{extra}}}"#, if extra.is_empty() { "" } else { "," });
+  let ma = r#"{"type":"match_all"}"#;
+  let mut searches: Vec<(String, String)> = vec![
+    ("sort.field".into(), search(ma, r#""sort":[{"field":"@N@","order":"asc"}]"#)),
+    ("highlight_field".into(), search("\"rust\"", r#""highlight_field":"@N@""#)),
+    ("highlight.fields-key".into(), search("\"rust\"", r#""highlight":{"fields":{"@N@":{}}}"#)),
+    ("highlight.pre_tag".into(), search("\"rust\"", r#""highlight":{"fields":{"body":{"pre_tag":"@N@"}}}"#)),
+    ("collapse.field".into(), search(ma, r#""collapse":{"field":"@N@"}"#)),
+    ("fields".into(), search("\"rust\"", r#""fields":["@N@"]"#)),
+    ("cursor".into(), search(ma, r#""cursor":"@N@""#)),
+    ("execution".into(), search(ma, r#""execution":"@N@""#)),
+    ("unknown-top-level-key".into(), search(ma, r#""@N@":1"#)),
+    ("suggest.name".into(), search(ma, r#""suggest":{"@N@":{"type":"completion","field":"body","prefix":"ru","size":3}}"#)),
+    ("suggest.field".into(), search(ma, r#""suggest":{"s":{"type":"completion","field":"@N@","prefix":"ru","size":3}}"#)),
+    ("suggest.prefix".into(), search(ma, r#""suggest":{"s":{"type":"completion","field":"body","prefix":"@N@","size":3}}"#)),
+    ("rescore.query-field".into(), search(ma, r#""rescore":{"window_size":5,"query":{"type":"term","field":"@N@","value":"rust"}}"#)),
+  ];
+  // filters, as the request filter and inside query nodes
+  let filters: [(&str, &str); 8] = [
+    ("KeywordEq.field", r#"{"KeywordEq":{"field":"@N@","value":"x"}}"#),
+    ("KeywordEq.value", r#"{"KeywordEq":{"field":"tag","value":"@N@"}}"#),
+    ("KeywordIn.field", r#"{"KeywordIn":{"field":"@N@","values":["x"]}}"#),
+    ("I64Range.field", r#"{"I64Range":{"field":"@N@","min":0,"max":5}}"#),
+    ("F64Range.field", r#"{"F64Range":{"field":"@N@","min":0.0,"max":5.0}}"#),
+    ("Nested.path", r#"{"Nested":{"path":"@N@","filter":{"KeywordEq":{"field":"t","value":"u"}}}}"#),
+    ("Nested.inner-field", r#"{"Nested":{"path":"c","filter":{"KeywordEq":{"field":"@N@","value":"u"}}}}"#),
+    ("Not.And.field", r#"{"Not":{"And":[{"KeywordEq":{"field":"@N@","value":"x"}}]}}"#),
+  ];
+  for (n, f) in filters {
+    searches.push((format!("filter.{n}"), search(ma, &format!("\"filter\":{f}"))));
+  }
+  searches.push(("query.bool.filter.field".into(), search(&format!(r#"{{"type":"bool","must":[{ma}],"filter":[{}]}}"#, filters[0].1), "")));
+  searches.push(("query.constant_score.filter.field".into(), search(&format!(r#"{{"type":"constant_score","filter":{}}}"#, filters[0].1), "")));
+  // query nodes and query strings
+  let queries: [(&str, &str); 27] = [
+    ("string.field-prefix", r#""@N@:rust""#),
+    ("string.term", r#""@N@""#),
+    ("string.field-value", r#""body:@N@""#),
+    ("string.quoted-phrase", r#""\"@N@ rust\"""#),
+    ("type", r#"{"type":"@N@"}"#),
+    ("term.field", r#"{"type":"term","field":"@N@","value":"rust"}"#),
+    ("term.value", r#"{"type":"term","field":"body","value":"@N@"}"#),
+    ("prefix.field", r#"{"type":"prefix","field":"@N@","value":"ru"}"#),
+    ("prefix.value", r#"{"type":"prefix","field":"body","value":"@N@"}"#),
+    ("wildcard.field", r#"{"type":"wildcard","field":"@N@","value":"ru*"}"#),
+    ("wildcard.value", r#"{"type":"wildcard","field":"body","value":"*@N@?"}"#),
+    ("regex.field", r#"{"type":"regex","field":"@N@","value":"ru.*"}"#),
+    ("regex.invalid-value", r#"{"type":"regex","field":"body","value":"(@N@"}"#),
+    ("regex.value", r#"{"type":"regex","field":"body","value":"@N@"}"#),
+    ("phrase.field", r#"{"type":"phrase","field":"@N@","terms":["rust","search"]}"#),
+    ("phrase.terms", r#"{"type":"phrase","field":"body","terms":["@N@","search"]}"#),
+    ("multi_match.fields", r#"{"type":"multi_match","query":"rust","fields":["@N@"]}"#),
+    ("query_string.fields", r#"{"type":"query_string","query":"rust","fields":["@N@"]}"#),
+    ("query_string.query", r#"{"type":"query_string","query":"@N@:rust"}"#),
+    ("rank_feature.field", r#"{"type":"rank_feature","field":"@N@"}"#),
+    ("script_score.script", r#"{"type":"script_score","query":{"type":"match_all"},"script":"@N@"}"#),
+    ("script_score.script-variable", r#"{"type":"script_score","query":{"type":"match_all"},"script":"_score + @N@"}"#),
+    ("script_score.param-name", r#"{"type":"script_score","query":{"type":"match_all"},"script":"_score","params":{"@N@":1.0}}"#),
+    ("function_score.field_value_factor.field", r#"{"type":"function_score","query":{"type":"match_all"},"functions":[{"type":"field_value_factor","field":"@N@"}]}"#),
+    ("function_score.decay.field", r#"{"type":"function_score","query":{"type":"match_all"},"functions":[{"type":"decay","field":"@N@","origin":0.0,"scale":1.0}]}"#),
+    ("dis_max.term.field", r#"{"type":"dis_max","queries":[{"type":"term","field":"@N@","value":"rust"}]}"#),
+    ("bool.must_not.term.field", r#"{"type":"bool","must":[{"type":"match_all"}],"must_not":[{"type":"term","field":"@N@","value":"rust"}]}"#),
+  ];
+  for (n, q) in queries {
+    searches.push((format!("query.{n}"), search(q, "")));
+  }
+  // aggregations
+  let aggs: [(&str, &str); 22] = [
+    ("name", r#"{"@N@":{"type":"terms","field":"tag","size":3}}"#),
+    ("name-with-unknown-field", r#"{"@N@":{"type":"terms","field":"nope","size":3}}"#),
+    ("terms.field", r#"{"a":{"type":"terms","field":"@N@","size":3}}"#),
+    ("terms.missing", r#"{"a":{"type":"terms","field":"tag","size":3,"missing":"@N@"}}"#),
+    ("significant_terms.field", r#"{"a":{"type":"significant_terms","field":"@N@"}}"#),
+    ("rare_terms.field", r#"{"a":{"type":"rare_terms","field":"@N@"}}"#),
+    ("range.field", r#"{"a":{"type":"range","field":"@N@","keyed":false,"ranges":[{"from":0.0,"to":5.0}]}}"#),
+    ("range.key", r#"{"a":{"type":"range","field":"n","keyed":false,"ranges":[{"key":"@N@","from":0.0,"to":5.0}]}}"#),
+    ("date_range.field", r#"{"a":{"type":"date_range","field":"@N@","keyed":false,"ranges":[{"from":"2020-01-01T00:00:00Z"}]}}"#),
+    ("date_range.from", r#"{"a":{"type":"date_range","field":"n","keyed":false,"ranges":[{"from":"@N@"}]}}"#),
+    ("histogram.field", r#"{"a":{"type":"histogram","field":"@N@","interval":1.0}}"#),
+    ("date_histogram.field", r#"{"a":{"type":"date_histogram","field":"@N@","fixed_interval":"1d"}}"#),
+    ("date_histogram.fixed_interval", r#"{"a":{"type":"date_histogram","field":"n","fixed_interval":"@N@"}}"#),
+    ("date_histogram.calendar_interval", r#"{"a":{"type":"date_histogram","field":"n","calendar_interval":"@N@"}}"#),
+    ("stats.field", r#"{"a":{"type":"stats","field":"@N@"}}"#),
+    ("cardinality.field", r#"{"a":{"type":"cardinality","field":"@N@"}}"#),
+    ("percentiles.field", r#"{"a":{"type":"percentiles","field":"@N@"}}"#),
+    ("top_hits.sort.field", r#"{"a":{"type":"top_hits","size":1,"sort":[{"field":"@N@"}]}}"#),
+    ("top_hits.highlight_field", r#"{"a":{"type":"top_hits","size":1,"highlight_field":"@N@"}}"#),
+    ("composite.source.field", r#"{"a":{"type":"composite","size":2,"sources":[{"type":"terms","name":"s","field":"@N@"}]}}"#),
+    ("composite.source.name", r#"{"a":{"type":"composite","size":2,"sources":[{"type":"terms","name":"@N@","field":"tag"}]}}"#),
+    ("top-level-pipeline.buckets_path", r#"{"h":{"type":"histogram","field":"n","interval":1.0},"p":{"type":"avg_bucket","buckets_path":"@N@"}}"#),
+  ];
+  for (n, a) in aggs {
+    searches.push((format!("aggs.{n}"), search(ma, &format!("\"aggs\":{a}"))));
+  }
+  searches.push(("aggs.sub.avg_bucket.buckets_path".into(), search(ma, r#""aggs":{"a":{"type":"terms","field":"tag","size":3,"aggs":{"s":{"type":"stats","field":"n"},"p":{"type":"avg_bucket","buckets_path":"@N@"}}}}"#)));
+  searches.push(("aggs.sub.bucket_sort.sort-key".into(), search(ma, r#""aggs":{"a":{"type":"terms","field":"tag","size":3,"aggs":{"s":{"type":"stats","field":"n"},"o":{"type":"bucket_sort","sort":[{"@N@":"desc"}],"size":2}}}}"#)));
+  searches.push(("aggs.type".into(), search(ma, r#""aggs":{"a":{"type":"@N@","field":"tag"}}"#)));
+  searches.push(("aggs.sub.terms.field".into(), search(ma, r#""aggs":{"a":{"type":"terms","field":"tag","size":3,"aggs":{"b":{"type":"stats","field":"@N@"}}}}"#)));
+  searches.push(("aggs.filter.field".into(), search(ma, &format!(r#""aggs":{{"a":{{"type":"filter","filter":{}}}}}"#, filters[0].1))));
+  searches.push(("aggs.bucket_script.script".into(), search(ma, r#""aggs":{"h":{"type":"histogram","field":"n","interval":1.0,"aggs":{"s":{"type":"bucket_script","buckets_path":{"c":"_count"},"script":"@N@"}}}}"#)));
+  for (n, t) in searches {
+    out.push(EchoLoc { name: format!("search.{n}"), st: St::Echo, path: "/search", ctype: JSON, template: t });
+  }
+  for l in &out {
+    assert!(l.template.contains(PH), "echo location {} has no placeholder", l.name);
+  }
+  out
+}
+
+#[derive(Clone, Copy, PartialEq, Eq)]
+enum Sweep {
+  /// everything small, a window around every power of two, the largest names the body admits
+  Dense,
+  /// a handful of lengths (quick tier, locations that did not quote the probe names back)
+  Sparse,
+}
+
+/// Total byte lengths of the planted names. Dense: 1..small, then a window around every power of
+/// two that is wide enough (>= 4 consecutive values) to put every byte phase of a 4-byte character
+/// at the end of the name, then the largest names the body limit admits.
+fn echo_lengths(quick: bool, sweep: Sweep, lmax: usize) -> Vec<usize> {
+  let mut v: Vec<usize> = Vec::new();
+  if sweep == Sweep::Sparse {
+    v.extend([1, 2, 3, 4, 16, 256, 4096, lmax]);
+  } else {
+    let (small, below, above, top) = if quick { (16, 2, 3, 4096) } else { (40, 8, 18, 16384) };
+    v.extend(1..=small);
+    let mut s = 16;
+    while s <= top {
+      v.extend(s - below..=s + above);
+      s *= 2;
+    }
+    v.extend(lmax.saturating_sub(if quick { 3 } else { 8 })..=lmax);
+  }
+  v.retain(|&l| l >= 1 && l <= lmax);
+  v.sort_unstable();
+  v.dedup();
+  v
+}
+
+/// `pad` ASCII bytes, then as many `width`-byte characters as fit, then ASCII filler up to `len`
+/// bytes: sweeping pad over 0..width and len over >= width consecutive values puts a character
+/// boundary at every phase relative to any fixed offset counted from the front or from the end.
+fn echo_name(width: usize, pad: usize, len: usize) -> Option<String> {
+  if len < pad + width {
+    return None;
+  }
+  let m = (len - pad) / width;
+  let q = len - pad - m * width;
+  let mut s = String::with_capacity(len);
+  s.push_str(&"a".repeat(pad));
+  s.push_str(&ECHO_CHARS[width - 1].repeat(m));
+  s.push_str(&"a".repeat(q));
+  debug_assert_eq!(s.len(), len);
+  Some(s)
+}
+
+/// (width, pad, len) of every name planted at `loc`, simplest first, without duplicates.
+fn echo_names(loc: &EchoLoc, quick: bool, sweep: Sweep) -> Vec<(usize, usize, usize)> {
+  let occurrences = loc.template.matches(PH).count();
+  let overhead = loc.template.len() - occurrences * PH.len();
+  let lmax = (echo_max_body(quick) - overhead) / occurrences;
+  let mut out = Vec::new();
+  for len in echo_lengths(quick, sweep, lmax) {
+    for width in 1..=4usize {
+      for pad in 0..width {
+        // at least one character of the given width, so that all (width, pad, len) are distinct
+        if len >= pad + width {
+          out.push((width, pad, len));
+        }
+      }
+    }
+  }
+  out
+}
+
+/// Names used to find out whether a location quotes its content back.
+const ECHO_PROBES: [(usize, usize, usize); 8] = [(1, 0, 32), (2, 0, 32), (3, 0, 32), (4, 0, 32), (1, 0, 96), (2, 1, 96), (3, 2, 96), (4, 3, 96)];
+
+/// Does the answer contain the first characters of the planted name (raw or JSON-escaped)?
+fn quoted_back(name: &str, body: &[u8]) -> bool {
+  if name.chars().count() < 8 {
+    return false;
+  }
+  let probe: String = name.chars().take(8).collect();
+  if String::from_utf8_lossy(body).contains(&probe) {
+    return true;
+  }
+  fn walk(v: &Value, probe: &str) -> bool {
+    match v {
+      Value::String(s) => s.contains(probe),
+      Value::Array(a) => a.iter().any(|x| walk(x, probe)),
+      Value::Object(o) => o.iter().any(|(k, x)| k.contains(probe) || walk(x, probe)),
+      _ => false,
+    }
+  }
+  serde_json::from_slice::<Value>(body).map(|v| walk(&v, &probe)).unwrap_or(false)
+}
+
+fn echo_req(loc_idx: usize, loc: &EchoLoc, quick: bool, width: usize, pad: usize, len: usize) -> Req {
+  let name = echo_name(width, pad, len).expect("name");
+  let body = loc.template.replace(PH, &name).into_bytes();
+  Req {
+    max_body: echo_max_body(quick),
+    method: "POST",
+    path: loc.path.to_string(),
+    ctype: Some(loc.ctype),
+    body: Some(body),
+    class: Class::Echo,
+    desc: format!(
+      "echo location {} = {}; template {} with @N@ = {} ASCII byte(s) + {}-byte characters {:?} (+ ASCII filler) = {} bytes",
+      loc_idx,
+      loc.name,
+      loc.template.trim_end(),
+      pad,
+      width,
+      ECHO_CHARS[width - 1],
+      len
+    ),
+    echo: Some((loc_idx, name)),
+  }
+}
+
+#[derive(Default, Clone)]
+struct LocStat {
+  requests: u64,
+  non_2xx: u64,
+  echoed: u64,
+  max_body_bytes: usize,
+  statuses: std::collections::BTreeSet<u16>,
+  error_types: std::collections::BTreeSet<String>,
 }
 
 // ---------------------------------------------------------------------------------------------
@@ -442,6 +777,16 @@ fn definitely_invalid(route: &Route, body: &[u8]) -> bool {
     "/search" => !o.contains_key("query"),
     _ => false,
   }
+}
+
+fn top_level_pipeline_agg(body: Option<&[u8]>) -> bool {
+  let Some(v) = body.and_then(|b| serde_json::from_slice::<Value>(b).ok()) else {
+    return false;
+  };
+  v.get("aggs")
+    .and_then(|a| a.as_object())
+    .map(|a| a.values().any(|x| matches!(x.get("type").and_then(|t| t.as_str()), Some("bucket_sort" | "avg_bucket" | "sum_bucket" | "derivative" | "moving_avg" | "bucket_script"))))
+    .unwrap_or(false)
 }
 
 struct Verdict {
@@ -568,6 +913,16 @@ fn judge(st: St, req: &Req, out: &Result<Resp, String>, panics: &[String]) -> Ve
         && panics.iter().any(|p| p.contains("Utf8Error"))
       {
         Some(SIG_PANIC_500)
+      } else if status == 500
+        && req.path == "/search"
+        && method_ok
+        && env.as_ref().map(|e| e.0 == "search_join").unwrap_or(false)
+        && panics.iter().any(|p| p.contains("pipeline aggregations are applied during finalize"))
+        && top_level_pipeline_agg(req.body.as_deref())
+      {
+        // narrow: a pipeline aggregation placed at the top level of `aggs` (the README only shows
+        // them as sub-aggregations) reaches an `unreachable!` in the collector
+        Some(SIG_TOP_PIPELINE)
       } else {
         None
       };
@@ -579,14 +934,20 @@ fn judge(st: St, req: &Req, out: &Result<Resp, String>, panics: &[String]) -> Ve
 // ---------------------------------------------------------------------------------------------
 // sessions
 
-fn setup(st: St) -> Server {
-  let mb = MAX_BODY.to_string();
+fn setup(st: St, max_body: usize) -> Server {
+  let mb = max_body.to_string();
   let srv = Server::fresh("c24", &["--max-body-bytes", &mb]);
   let must = |what: &str, r: Result<Resp, String>| match r {
     Ok(r) if r.is_2xx() => {}
     Ok(r) => vcore::ev::machinery_failure(&format!("C24 setup {what}: {} {}", r.status, r.body_text())),
     Err(e) => vcore::ev::machinery_failure(&format!("C24 setup {what}: {e}")),
   };
+  if st == St::Echo {
+    must("/init", srv.send("POST", "/init", Some(JSON), Some(ECHO_SCHEMA.as_bytes())));
+    must("/add", srv.send("POST", "/add", Some(NDJSON), Some(ECHO_DOCS.as_bytes())));
+    must("/commit", srv.send("POST", "/commit", None, None));
+    return srv;
+  }
   if st != St::NoIndex {
     must("/init", srv.post_json("/init", &http_schema()));
     must("/add", srv.send("POST", "/add", Some(NDJSON), Some(b"{\"_id\":\"k\",\"body\":\"rust search\"}\n{\"_id\":\"m\",\"body\":\"more rust\"}\n")));
@@ -606,6 +967,15 @@ fn dirties(st: St, req: &Req, out: &Result<Resp, String>) -> bool {
   if r.method != req.method || !matches!(r.path, "/init" | "/add" | "/bulk" | "/delete" | "/commit" | "/compact") {
     return false;
   }
+  if st == St::Echo {
+    // all documents of the echo index are committed and no echo request depends on the queue:
+    // only a missing answer or a 5xx makes the server suspect (the caller also rebuilds it after
+    // a number of acknowledged writes)
+    return match out {
+      Err(_) => true,
+      Ok(resp) => resp.status >= 500,
+    };
+  }
   match out {
     Err(_) => true,
     Ok(resp) => {
@@ -620,6 +990,11 @@ fn dirties(st: St, req: &Req, out: &Result<Resp, String>) -> bool {
           _ => true,
         };
       }
+      if req.class == Class::Echo && r.path == "/init" && st == St::NoIndex {
+        // a rejected echo /init: the caller confirms with GET /stats (404 index_missing) that the
+        // server is still without an index instead of rebuilding it
+        return false;
+      }
       match resp.error_type().as_deref() {
         Some("add_failed") | Some("delete_failed") | Some("init_failed") => true,
         _ => r.path == "/init" && st == St::NoIndex && resp.error_type().as_deref() != Some("invalid_request"),
@@ -632,6 +1007,8 @@ struct One {
   verdict: Verdict,
   health_failure: Option<String>,
   dirty: bool,
+  /// (status, body) of the answer, kept for echo-family requests only
+  answer: Option<(u16, Vec<u8>)>,
 }
 
 fn run_one(srv: &Server, st: St, req: &Req) -> One {
@@ -654,7 +1031,8 @@ fn run_one(srv: &Server, st: St, req: &Req) -> One {
     vcore::ev::machinery_failure(&format!("C24: server task ended after {}", req.line()));
   }
   let dirty = dirties(st, req, &out) || health_failure.is_some();
-  One { verdict, health_failure, dirty }
+  let answer = if req.echo.is_some() { out.ok().map(|r| (r.status, r.body)) } else { None };
+  One { verdict, health_failure, dirty, answer }
 }
 
 pub fn run(ctx: &Ctx) -> i32 {
@@ -665,7 +1043,7 @@ pub fn run(ctx: &Ctx) -> i32 {
     let v: Value = serde_json::from_slice(&std::fs::read(path).expect("replay file")).expect("json");
     let (st, req) = Req::from_json(&v["case"]);
     let once = || {
-      let srv = setup(st);
+      let srv = setup(st, req.max_body);
       let o = run_one(&srv, st, &req);
       match (o.verdict.failure, o.health_failure) {
         (Some((sig, w)), _) => Some((sig, w)),
@@ -692,6 +1070,149 @@ pub fn run(ctx: &Ctx) -> i32 {
   let space = build_space(quick);
   let states = [St::NoIndex, St::Index, St::Queued];
   let chunk = 250;
+  let deadline = if quick { 36.0 } else { 840.0 };
+  let timed_out = AtomicBool::new(false);
+  let evals = AtomicU64::new(0);
+  let non2xx = AtomicU64::new(0);
+  let restarts = AtomicU64::new(0);
+  let outcomes: Mutex<BTreeMap<String, u64>> = Mutex::new(BTreeMap::new());
+  // failures are gathered and reported in enumeration order so that the first one is minimal:
+  // (state, sequence number, signature, what, case)
+  let failures: Mutex<Vec<(usize, usize, Option<&'static str>, String, Value)>> = Mutex::new(Vec::new());
+  // one request on the job's server (started / rebuilt on demand)
+  let step = |st: St, req: &Req, seq: usize, srv: &mut Option<Server>, local: &mut BTreeMap<String, u64>| -> Option<(u16, Vec<u8>)> {
+    if srv.is_none() {
+      *srv = Some(setup(st, req.max_body));
+      restarts.fetch_add(1, Ordering::Relaxed);
+    }
+    let o = run_one(srv.as_ref().unwrap(), st, req);
+    evals.fetch_add(1, Ordering::Relaxed);
+    if o.verdict.non_2xx {
+      non2xx.fetch_add(1, Ordering::Relaxed);
+    }
+    *local.entry(o.verdict.outcome.clone()).or_default() += 1;
+    if let Some((sig, what)) = o.verdict.failure {
+      failures.lock().push((st as usize, seq, sig, what, req.to_json(st)));
+    } else if let Some(h) = &o.health_failure {
+      failures.lock().push((st as usize, seq, None, format!("state {}: {} -> {h}", st.name(), req.line()), req.to_json(st)));
+    } else if seq % 997 == 0 {
+      rep.sample(json!({"state": st.name(), "request": req.line(), "outcome": o.verdict.outcome}));
+    }
+    if o.dirty {
+      *srv = None;
+    }
+    o.answer
+  };
+
+  // ---- phase 1: the echoed-input family (first, so that no wall budget can skip it)
+  let locs = echo_locations();
+  let loc_stats: Mutex<Vec<LocStat>> = Mutex::new(vec![LocStat::default(); locs.len()]);
+  // one echo request: run it, update the statistics of its location; true if quoted back
+  let echo_step = |li: usize, seq: usize, n: (usize, usize, usize), srv: &mut Option<Server>, acks: &mut u32, local: &mut BTreeMap<String, u64>| -> bool {
+    let loc = &locs[li];
+    let req = echo_req(li, loc, quick, n.0, n.1, n.2);
+    let answer = step(loc.st, &req, seq, srv, local);
+    let mut stat = LocStat { requests: 1, ..LocStat::default() };
+    let mut quoted = false;
+    if let Some((status, body)) = answer {
+      stat.statuses.insert(status);
+      stat.max_body_bytes = body.len();
+      if (200..300).contains(&status) {
+        // acknowledged writes only grow the queue, which no echo request depends on; rebuild the
+        // server now and then so that the log every writer replays stays small
+        *acks += 1;
+        if *acks >= 40 && matches!(loc.path, "/add" | "/bulk" | "/delete") {
+          *srv = None;
+          *acks = 0;
+        }
+      } else {
+        stat.non_2xx = 1;
+        if let Some((t, _)) = envelope(&body) {
+          stat.error_types.insert(t);
+        }
+        if loc.path == "/init" && loc.st == St::NoIndex {
+          if let Some(sv) = srv.as_ref() {
+            let still_missing = matches!(sv.send("GET", "/stats", None, None), Ok(r) if r.status == 404 && r.error_type().as_deref() == Some("index_missing"));
+            if !still_missing {
+              *srv = None;
+            }
+          }
+        }
+      }
+      quoted = quoted_back(&req.echo.as_ref().unwrap().1, &body);
+      stat.echoed = quoted as u64;
+    }
+    let mut g = loc_stats.lock();
+    let t = &mut g[li];
+    t.requests += stat.requests;
+    t.non_2xx += stat.non_2xx;
+    t.echoed += stat.echoed;
+    t.max_body_bytes = t.max_body_bytes.max(stat.max_body_bytes);
+    t.statuses.extend(stat.statuses);
+    t.error_types.extend(stat.error_types);
+    quoted
+  };
+  let merge = |local: BTreeMap<String, u64>| {
+    let mut g = outcomes.lock();
+    for (k, n) in local {
+      *g.entry(format!("echo:{k}")).or_default() += n;
+    }
+  };
+  // 1a: probe every location: does it quote the name back?
+  let quotes: Vec<bool> = (0..locs.len())
+    .into_par_iter()
+    .map(|li| {
+      let mut srv: Option<Server> = None;
+      let mut local = BTreeMap::new();
+      let mut acks = 0;
+      let mut q = false;
+      for (k, &n) in ECHO_PROBES.iter().enumerate() {
+        q |= echo_step(li, li * ECHO_PROBES.len() + k, n, &mut srv, &mut acks, &mut local);
+      }
+      merge(local);
+      q
+    })
+    .collect();
+  // 1b: the sweep. Thorough: dense everywhere. Quick: dense where the probes were quoted back,
+  // a handful of lengths elsewhere.
+  let sweeps: Vec<Sweep> = quotes.iter().map(|&q| if q || !quick { Sweep::Dense } else { Sweep::Sparse }).collect();
+  let loc_names: Vec<Vec<(usize, usize, usize)>> = locs.iter().zip(&sweeps).map(|(l, &sw)| echo_names(l, quick, sw)).collect();
+  let mut echo_jobs: Vec<(usize, usize, usize, usize)> = Vec::new(); // (location, lo, hi, first sequence number)
+  let mut echo_total = locs.len() * ECHO_PROBES.len();
+  // locations that quote back first
+  let mut order: Vec<usize> = (0..locs.len()).collect();
+  order.sort_by_key(|&li| (!quotes[li], li));
+  for &li in &order {
+    let names = &loc_names[li];
+    let mut i = 0;
+    while i < names.len() {
+      let hi = (i + 120).min(names.len());
+      echo_jobs.push((li, i, hi, echo_total + i));
+      i = hi;
+    }
+    echo_total += names.len();
+  }
+  echo_jobs.par_iter().for_each(|&(li, lo, hi, seq0)| {
+    let mut srv: Option<Server> = None;
+    let mut local: BTreeMap<String, u64> = BTreeMap::new();
+    let mut acks = 0;
+    for (k, &n) in loc_names[li][lo..hi].iter().enumerate() {
+      if rep.elapsed_s() > deadline {
+        timed_out.store(true, Ordering::Relaxed);
+        break;
+      }
+      echo_step(li, seq0 + k, n, &mut srv, &mut acks, &mut local);
+    }
+    merge(local);
+  });
+  let echo_wall = rep.elapsed_s();
+  let loc_stats = loc_stats.into_inner();
+  let echoing_locations = loc_stats.iter().filter(|s| s.echoed > 0).count();
+  if echoing_locations == 0 {
+    vcore::ev::machinery_failure("C24 echo family vacuous: no location quoted the planted name back");
+  }
+
+  // ---- phase 2: routing and body spaces
   let mut jobs: Vec<(St, usize, usize)> = Vec::new();
   for &st in &states {
     let mut i = 0;
@@ -700,14 +1221,6 @@ pub fn run(ctx: &Ctx) -> i32 {
       i += chunk;
     }
   }
-  let deadline = if quick { 32.0 } else { 840.0 };
-  let timed_out = AtomicBool::new(false);
-  let evals = AtomicU64::new(0);
-  let non2xx = AtomicU64::new(0);
-  let restarts = AtomicU64::new(0);
-  let outcomes: Mutex<BTreeMap<String, u64>> = Mutex::new(BTreeMap::new());
-  // failures are gathered and reported in enumeration order so that the first one is minimal
-  let failures: Mutex<Vec<(usize, usize, Option<&'static str>, String, Value)>> = Mutex::new(Vec::new());
   jobs.par_iter().for_each(|&(st, lo, hi)| {
     let mut srv: Option<Server> = None;
     let mut local: BTreeMap<String, u64> = BTreeMap::new();
@@ -716,27 +1229,7 @@ pub fn run(ctx: &Ctx) -> i32 {
         timed_out.store(true, Ordering::Relaxed);
         break;
       }
-      let req = &space.reqs[i];
-      if srv.is_none() {
-        srv = Some(setup(st));
-        restarts.fetch_add(1, Ordering::Relaxed);
-      }
-      let o = run_one(srv.as_ref().unwrap(), st, req);
-      evals.fetch_add(1, Ordering::Relaxed);
-      if o.verdict.non_2xx {
-        non2xx.fetch_add(1, Ordering::Relaxed);
-      }
-      *local.entry(o.verdict.outcome.clone()).or_default() += 1;
-      if let Some((sig, what)) = o.verdict.failure {
-        failures.lock().push((st as usize, i, sig, what, req.to_json(st)));
-      } else if let Some(h) = &o.health_failure {
-        failures.lock().push((st as usize, i, None, format!("state {}: {} -> {h}", st.name(), req.line()), req.to_json(st)));
-      } else if i % 997 == 0 {
-        rep.sample(json!({"state": st.name(), "request": req.line(), "outcome": o.verdict.outcome}));
-      }
-      if o.dirty {
-        srv = None;
-      }
+      step(st, &space.reqs[i], echo_total + i, &mut srv, &mut local);
     }
     let mut g = outcomes.lock();
     for (k, n) in local {
@@ -765,12 +1258,27 @@ pub fn run(ctx: &Ctx) -> i32 {
   let to = timed_out.load(Ordering::Relaxed);
   let cov = vcore::cov! {
     "distinct_nontrivial" => non2xx.load(Ordering::Relaxed),
-    "rule" => "space = states {no index, index (2 committed docs), index + 1 queued doc} x distinct well-framed HTTP/1.1 requests: (A) methods {GET,POST,PUT,DELETE} x paths {11 routes, every single-character deletion / substitution / insertion of every route keeping the leading '/', '/'} x content types {application/json, application/x-ndjson, none, text/plain} x bodies {no body, Content-Length 0, '{', the valid body of the base route}; (B) every route with its method x content types x {non-UTF-8 bytes, max_body+1 bytes, every single-edit neighbour (delete / replace / insert over the replacement alphabet) of the route's valid bodies (one per route in the quick tier, two in the thorough tier)}, plus /search requests known to make the core error or panic. Each request runs on a live server in exactly the stated state (the server is rebuilt after any request that may have changed it) and is followed by GET /healthz. A case is non-trivial when it is answered with a non-2xx status (a failure path ran).",
+    "rule" => "echo family first (see echo_family: every request location whose content the server may quote back x names of 1/2/3/4-byte characters in every byte phase x total lengths swept around the powers of two up to the body limit, same oracle; in the quick tier the dense length sweep is applied to the locations that quote 8 probe names back and a sparse one elsewhere); then space = states {no index, index (2 committed docs), index + 1 queued doc} x distinct well-framed HTTP/1.1 requests: (A) methods {GET,POST,PUT,DELETE} x paths {11 routes, every single-character deletion / substitution / insertion of every route keeping the leading '/', '/'} x content types {application/json, application/x-ndjson, none, text/plain} x bodies {no body, Content-Length 0, '{', the valid body of the base route}; (B) every route with its method x content types x {non-UTF-8 bytes, max_body+1 bytes, every single-edit neighbour (delete / replace / insert over the replacement alphabet) of the route's valid bodies (one per route in the quick tier, two in the thorough tier)}, plus /search requests known to make the core error or panic. Each request runs on a live server in exactly the stated state (the server is rebuilt after any request that may have changed it) and is followed by GET /healthz. A case is non-trivial when it is answered with a non-2xx status (a failure path ran).",
     "requests_per_state" => space.reqs.len(),
     "states" => states.iter().map(|s| s.name()).collect::<Vec<_>>(),
     "space_breakdown" => space.counts,
     "path_edit_alphabet" => if quick { "x" } else { "x / A" },
     "body_replacement_alphabet" => if quick { "\" } 0 0xff" } else { "\" { } [ ] : , 0 a <space> \\n \\ 0x00 0xff" },
+    "echo_family" => json!({
+      "requests": loc_stats.iter().map(|s| s.requests).sum::<u64>(),
+      "wall_s": echo_wall,
+      "locations": locs.len(),
+      "locations_that_quoted_the_name_back": echoing_locations,
+      "server_max_body_bytes": echo_max_body(quick),
+      "dense_sweep_locations": sweeps.iter().filter(|s| **s == Sweep::Dense).count(),
+      "probe_names": ECHO_PROBES.iter().map(|p| format!("{} ASCII + {}-byte chars = {} bytes", p.1, p.0, p.2)).collect::<Vec<_>>(),
+      "characters": ECHO_CHARS,
+      "name_rule": "name = p ASCII bytes + k-byte characters + ASCII filler, for k in 1..=4, p in 0..k, total byte length L in the length set (bounded per location by the body limit)",
+      "dense_lengths": echo_lengths(quick, Sweep::Dense, echo_max_body(quick) - 64),
+      "sparse_lengths": echo_lengths(quick, Sweep::Sparse, echo_max_body(quick) - 64),
+      "per_location": locs.iter().zip(loc_stats.iter()).map(|(l, s)| json!({"location": l.name, "state": l.st.name(), "path": l.path, "template": l.template.trim_end(),
+        "sweep": if sweeps[locs.iter().position(|x| x.name == l.name).unwrap()] == Sweep::Dense { "dense" } else { "sparse" }, "requests": s.requests, "non_2xx": s.non_2xx, "quoted_back": s.echoed, "largest_response_body": s.max_body_bytes, "statuses": s.statuses, "error_types": s.error_types})).collect::<Vec<_>>(),
+    }),
     "servers_started" => restarts.load(Ordering::Relaxed),
     "distinct_observed_outcomes" => oc.len(),
     "observed_outcomes" => oc,
@@ -786,6 +1294,7 @@ pub fn run(ctx: &Ctx) -> i32 {
       "an oversized body must give 413; 404 is also accepted while the index is missing, and the normal answer is accepted on routes that take no body".into(),
       "bytes following a complete JSON document in a JSON request body are not treated as certainly invalid (observed: the server ignores them and answers 2xx)".into(),
       "NDJSON blank lines are lines that are empty after trimming whitespace (the replacement alphabet contains no exotic Unicode whitespace)".into(),
+      "echo family: request paths, query strings and header values are not quoted back by the server and stay ASCII; names use the characters a, é, 日, 😀 only (nothing that needs JSON escaping)".into(),
       "search requests with huge limit / candidate_size values are left out (allocation failure would abort the harness process)".into(),
     ],
   )
